@@ -248,7 +248,8 @@ fn entry_world(sel: u64, ts: Option<TimeoutSettings>, silent: bool, t: &mut Tape
             if !silent {
                 w.http = Some(Box::new(EcoHttp { st: EcoState::generate(t), expect_host: SERVER_IP.to_string(), expect_port: port, requests: Vec::new(), fail: None }));
             }
-            call(Entry::Eco { level: 1 })
+            // (also with host names in the extra settings that make no URL: empty, a lone bracket)
+            call(Entry::Eco { level: *t.pick(CFG, &[1u8, 1, 3, 4, 5]) })
         }
         16 => {
             // extra request settings, whatever the values: host names of awkward lengths (0, around 255
